@@ -252,6 +252,41 @@ func init() {
 			}
 		}
 
+		c.Rule("C33d completeness: the loop that looks for the largest group visits every group (its only exit is the exhausted map iterator); processCrossValidationResult returns a result without error only when that result is responsesCrossValidation's, under its nil error")
+		for _, lf := range phiLeaves(best) {
+			in, isIn := lf.(ssa.Instruction)
+			if !isIn || !strings.HasSuffix(ir.Desc(lf), ".count") {
+				continue
+			}
+			loop := innermostLoop(cv, in.Block())
+			if loop == nil {
+				c.Fail("C33d/responsesCrossValidation/scans-every-group", c.P.InstrPos(in), "the largest group is not searched in a loop over the groups")
+				continue
+			}
+			bad := ""
+			for b := range loop.Blocks {
+				for _, s := range b.Succs {
+					if !loop.Blocks[s] && b != loop.Header {
+						bad = c.P.Pos(b.Instrs[len(b.Instrs)-1].Pos())
+					}
+				}
+			}
+			if bad == "" {
+				c.OK("C33d/responsesCrossValidation/scans-every-group", c.P.InstrPos(in), "no early exit from the scan")
+			} else {
+				c.Fail("C33d/responsesCrossValidation/scans-every-group", c.P.InstrPos(in), "the scan for the largest group can stop early ("+bad+"): with random map order a smaller group that reached the threshold can be returned instead of the largest")
+			}
+		}
+		for _, r := range c.SuccessReturns(pcv) {
+			ret := r.Instr.(*ssa.Return)
+			d := ir.Desc(RetVal(ret, 0))
+			if strings.HasPrefix(d, "call("+rcK+"RelayProcessor.responsesCrossValidation)(recv,param#0,param#3)#0") && ir.HasFact(ir.GuardFacts(ret), "responsesCrossValidation)(recv,param#0,param#3)#1 == nil)") {
+				c.OK("C33d/processCrossValidationResult/success=responsesCrossValidation's-result", c.P.InstrPos(ret), "")
+			} else {
+				c.Fail("C33d/processCrossValidationResult/success=responsesCrossValidation's-result", c.P.InstrPos(ret), "a cross-validated success is returned that did not come out of responsesCrossValidation ("+trunc(d, 100)+"): the agreement on the stored successful results is bypassed")
+			}
+		}
+
 		c.Rule("C33c inputs: processCrossValidationResult hands responsesCrossValidation the successful results and the required size it was given, which ProcessingResult takes from getAgreementThreshold; handleResponse caches sha256 of the reply data as ResponseHash only for responses without node or protocol error")
 		for _, s := range c.CallsIn(pcv, cv, false) {
 			call := ir.CallOf(s.Instr)
